@@ -31,6 +31,7 @@ class FnVisitor(ast.NodeVisitor):
         self.setnames = set()       # names bound to set-typed values
         self.dictofsets = set()     # names bound to defaultdict(set)
         self.listofsets = set()     # names bound to lists that get sets appended
+        self.localdefs = {}
         self.sites = []
 
     # --- typing heuristics
@@ -91,7 +92,23 @@ class FnVisitor(ast.NodeVisitor):
     def visit_For(self, n):
         if self.is_set(n.iter):
             self.site(n, n.iter, "for")
+        it = n.iter
+        if isinstance(it, ast.Call) and isinstance(it.func, ast.Attribute) and isinstance(it.func.value, ast.Name) \
+                and it.func.value.id in self.dictofsets:
+            if it.func.attr == "values" and isinstance(n.target, ast.Name):
+                self.setnames.add(n.target.id)
+            if it.func.attr == "items" and isinstance(n.target, ast.Tuple) and len(n.target.elts) == 2 \
+                    and isinstance(n.target.elts[1], ast.Name):
+                self.setnames.add(n.target.elts[1].id)
         self.generic_visit(n)
+
+    def key_source(self, knode):
+        """source text of a sort key: a lambda, or a function defined in the enclosing function"""
+        if isinstance(knode, ast.Lambda):
+            return ast.unparse(knode)
+        if isinstance(knode, ast.Name) and knode.id in self.localdefs:
+            return ast.unparse(self.localdefs[knode.id])
+        return ast.unparse(knode)
 
     def comp(self, n):
         for g in n.generators:
@@ -109,8 +126,10 @@ class FnVisitor(ast.NodeVisitor):
             self.site(n, args[0], name)
         if name == "join" and args and self.is_set(args[0]):
             self.site(n, args[0], "join")
-        if name in ("min", "max") and args and self.is_set(args[0]) and any(k.arg == "key" for k in n.keywords):
-            self.site(n, args[0], name + "-with-key")
+        if name in ("min", "max", "sorted") and args and self.is_set(args[0]) and any(k.arg == "key" for k in n.keywords):
+            import hashlib
+            ksrc = self.key_source(next(k.value for k in n.keywords if k.arg == "key"))
+            self.site(n, args[0], name + "-with-key#" + hashlib.sha1(ksrc.encode()).hexdigest()[:10])
         if name == "pop" and isinstance(f, ast.Attribute) and self.is_set(f.value) and not args:
             self.site(n, f.value, "pop")
         for a in args:
@@ -123,7 +142,7 @@ class FnVisitor(ast.NodeVisitor):
         self.generic_visit(n)
 
     def visit_FunctionDef(self, n):
-        pass  # nested functions handled by the driver
+        self.localdefs[n.name] = n  # nested functions are visited separately by the driver
 
     visit_AsyncFunctionDef = visit_FunctionDef
     visit_Lambda = ast.NodeVisitor.generic_visit
@@ -169,5 +188,64 @@ def inventory():
     return sites
 
 
+def table_sites():
+    """module-level containers (live objects) that hold hash-ordered collections with str-bearing elements:
+    any loop over such a value follows the hash seed"""
+    import importlib
+    out = []
+
+    def strbearing(x, depth=0):
+        if isinstance(x, (str, bytes)):
+            return True
+        if isinstance(x, (tuple, frozenset)) and depth < 3:
+            return any(strbearing(y, depth + 1) for y in x)
+        return not isinstance(x, (int, float, bool, type(None)))
+
+    def walk(x, path, depth):
+        if isinstance(x, (set, frozenset)):
+            if any(strbearing(e) for e in x):
+                out.append(path)
+            return
+        if depth >= 3:
+            return
+        if isinstance(x, dict):
+            for k, v in list(x.items())[:200]:
+                walk(v, path + "[...]", depth + 1)
+        elif isinstance(x, (list, tuple)):
+            for v in list(x)[:200]:
+                walk(v, path + "[...]", depth + 1)
+    for m in MODULES:
+        try:
+            mod = importlib.import_module("rnapolis." + m)
+        except Exception:
+            continue
+        for name, val in sorted(vars(mod).items()):
+            if name.startswith("__") or getattr(val, "__module__", None) not in (None, mod.__name__) and not isinstance(val, (dict, list, tuple, set, frozenset)):
+                continue
+            if isinstance(val, (dict, list, tuple, set, frozenset)):
+                found = []
+                before = len(out)
+                walk(val, name, 0)
+                for pth in sorted(set(out[before:])):
+                    found.append(pth)
+                del out[before:]
+                for pth in found:
+                    out.append({"module": m, "function": "<table>", "expr": pth, "kind": "module-table-of-str-sets", "line": 0})
+    # de-duplicate (a table imported into another module is reported where it is defined first)
+    seen, res = set(), []
+    for s in out:
+        k = (s["expr"],)
+        if k not in seen:
+            seen.add(k)
+            res.append(s)
+    return res
+
+
 if __name__ == "__main__":
-    json.dump(inventory(), sys.stdout, indent=1)
+    sites = inventory()
+    if "--no-tables" not in sys.argv:
+        try:
+            sites += table_sites()
+        except Exception as e:  # noqa: BLE001
+            sites.append({"module": "?", "function": "<table>", "expr": "table scan failed: %s" % e, "kind": "error", "line": 0})
+    json.dump(sites, sys.stdout, indent=1)
